@@ -20,7 +20,7 @@ TRUSTED_COMMON = [
 ]
 ASSUMPTIONS_COMMON = [
     'no TLS, CHUNKING off: the configuration of the harness; those paths are outside this model; AUTH: only single-line AUTH PLAIN against the checkpassword stand-in (configuration auth=1), multi-line exchanges end the modelled session',
-    'submission mode (TCPLOCALPORT 587, cfg port=587) is modelled (oracle o_submission: MAIL FROM gate, header checks, Date/From/Message-Id additions); the TLS client certificate entitlement inside is_authenticated() (tls_verify) is not reached without TLS and is not modelled; control/msgidhost, the clock and the date text are oracles',
+    'submission mode (TCPLOCALPORT 587, cfg port=587) is modelled (oracle o_submission: MAIL FROM gate, header checks, Date/From/Message-Id additions); the TLS client certificate stage of is_authenticated() is modelled with the outcome of the one real evaluation of tls_verify() as oracle (o_tls, o_tlsverify; literal model: coq/Model/TlsVerify.v, bridge: coq/Proofs/CertBridge.v); without TLS it returns 0 at once, which is all the session harness exercises; control/msgidhost, the clock and the date text are oracles',
     'per-recipient filters all pass (no filterconf in the scratch tree); their combination is property C12',
     'the kernel delivers bytes to read() in segment order; a segment arrives when the server blocks in poll()',
 ]
